@@ -152,6 +152,69 @@ pub fn random_setup(rng: &mut Rng, max_extra: usize) -> Pos {
     }
 }
 
+/// The side to move is in check while it still holds castling rights with the squares between
+/// king and rook empty: castling must not be offered (nor chosen, nor accepted when typed)
+/// although, with the checker far from the king's path, the king would land safely.
+pub fn castle_temptation(rng: &mut Rng) -> Pos {
+    loop {
+        let mut pos = Pos::empty();
+        let white = rng.chance(1, 2);
+        let (us, them) = if white { (Side::White, Side::Black) } else { (Side::Black, Side::White) };
+        let home: i8 = if white { 0 } else { 7 };
+        let fwd: i8 = if white { 1 } else { -1 };
+        let at = |f: i8, up: i8| mk_sq(f, home + fwd * up).unwrap();
+        pos.sq[at(4, 0) as usize] = Some((P::King, us));
+        let wings = rng.below(3); // 0 both, 1 queen side, 2 king side
+        if wings != 2 {
+            pos.sq[at(0, 0) as usize] = Some((P::Rook, us));
+            pos.rights |= if white { WQ } else { BQ };
+        }
+        if wings != 1 {
+            pos.sq[at(7, 0) as usize] = Some((P::Rook, us));
+            pos.rights |= if white { WK } else { BK };
+        }
+        // the checker, in coordinates relative to the checked side's home rank
+        let (cp, cf, cu): (P, i8, i8) = *rng.pick(&[
+            (P::Knight, 2, 1),
+            (P::Knight, 3, 2),
+            (P::Knight, 5, 2),
+            (P::Knight, 6, 1),
+            (P::Bishop, 1, 3),
+            (P::Bishop, 0, 4),
+            (P::Bishop, 7, 3),
+            (P::Queen, 7, 3),
+            (P::Rook, 4, 4),
+            (P::Rook, 4, 7),
+            (P::Queen, 4, 6),
+            (P::Pawn, 3, 1),
+            (P::Pawn, 5, 1),
+        ]);
+        pos.sq[at(cf, cu) as usize] = Some((cp, them));
+        // their king, away from ours
+        let tk = at(rng.below(8) as i8, 5 + rng.below(3) as i8);
+        if pos.sq[tk as usize].is_some() {
+            continue;
+        }
+        pos.sq[tk as usize] = Some((P::King, them));
+        for _ in 0..rng.below(7) {
+            let sq = rng.below(64) as Sq;
+            if pos.sq[sq as usize].is_some() || rank_of(sq) == home {
+                continue;
+            }
+            let side = if rng.chance(1, 2) { us } else { them };
+            let p = *rng.pick(&[P::Pawn, P::Pawn, P::Knight, P::Bishop, P::Rook, P::Queen]);
+            if p == P::Pawn && (rank_of(sq) == 0 || rank_of(sq) == 7) {
+                continue;
+            }
+            pos.sq[sq as usize] = Some((p, side));
+        }
+        pos.stm = us;
+        if pos.is_consistent() && pos.in_check(us) && !pos.legal_moves().is_empty() {
+            return pos;
+        }
+    }
+}
+
 /// A pawn one step from promotion with both kings nearby (queen promotions that stalemate,
 /// under-promotions that win): the endings where "the queen is always best" is false.
 pub fn promotion_ending(rng: &mut Rng) -> Pos {
@@ -287,7 +350,13 @@ pub fn choose_start(rng: &mut Rng, weights: &[(StartKind, usize)]) -> (StartKind
         StartKind::SingleReply => single_reply_position(rng),
         StartKind::Initial => Pos::startpos(),
         StartKind::Suite => Pos::from_fen(*rng.pick(&suite_fens()[..])).unwrap(),
-        StartKind::Special => Pos::from_fen(*rng.pick(&SPECIAL_FENS[..])).unwrap(),
+        StartKind::Special => {
+            if rng.chance(1, 4) {
+                castle_temptation(rng)
+            } else {
+                Pos::from_fen(*rng.pick(&SPECIAL_FENS[..])).unwrap()
+            }
+        }
         StartKind::Endgame => Pos::from_fen(*rng.pick(&ENDGAME_FENS[..])).unwrap(),
         StartKind::Random => {
             let max_extra = *rng.pick(&[2usize, 4, 6, 10, 16, 24]);
